@@ -53,7 +53,7 @@ def _ratio(y_true, y_pred):
 
 
 def build_metric(name):
-    if name == "smape":
+    if name in ("smape", "default"):  # "default": evaluate is called without a metric and documents sMAPE
         return MeanAbsolutePercentageError()
     if name == "mape_asym":
         return MeanAbsolutePercentageError(symmetric=False)
@@ -75,7 +75,7 @@ def raw_metric(name):
         return np.asarray(v, dtype=float)
 
     eps = np.finfo(np.float64).eps
-    if name == "smape":
+    if name in ("smape", "default"):
         return lambda yt, yp: float(np.mean(2.0 * np.abs(arr(yt) - arr(yp)) / np.maximum(np.abs(arr(yt)) + np.abs(arr(yp)), eps)))
     if name == "mape_asym":
         return lambda yt, yp: float(np.mean(np.abs(arr(yt) - arr(yp)) / np.maximum(np.abs(arr(yt)), eps)))
@@ -164,7 +164,7 @@ def oracle(case, ctx):
         ctx.mark_rejected()
         ctx.label("honest_loop_raises:%s" % exp.type)
         f = pools.build_forecaster(spec)
-        r = sut(evaluate, f, cv, y, X, strategy=strategy, scoring=metric)
+        r = sut(evaluate, f, cv, y, X, strategy=strategy, scoring=(None if case["metric"] == "default" else metric))
         if not isinstance(r, Raised):
             discs.append(D("evaluate_returns_where_honest_loop_fails", "%s: honest loop raised %r" % (pools.describe(spec), exp)))
         return discs
@@ -174,7 +174,7 @@ def oracle(case, ctx):
         f.fit(y, X, fh=[1])
         doubles.LOG.clear()
     yc, Xc = y.copy(), (None if X is None else X.copy())
-    r = sut(evaluate, f, cv, yc, Xc, strategy=strategy, scoring=metric, return_data=case["return_data"])
+    r = sut(evaluate, f, cv, yc, Xc, strategy=strategy, scoring=(None if case["metric"] == "default" else metric), return_data=case["return_data"])
     ctx.label(pools.describe(spec))
     ctx.label(strategy)
     ctx.label(case["metric"])
@@ -270,7 +270,7 @@ def cases(draw):
         "values": draw(gen.series_values(n, n, lo=5.0, hi=300.0)),
         "start": draw(gen.index_start), "index_kind": draw(gen.index_kind),
         "with_X": with_X, "strategy": draw(st.sampled_from(["refit", "update"])),
-        "metric": draw(st.sampled_from(["smape", "mape_asym", "signed", "ratio", "mse"])),
+        "metric": draw(st.sampled_from(["smape", "mape_asym", "signed", "ratio", "mse", "default"])),
         "return_data": draw(st.booleans()), "prefit": draw(st.integers(0, 3)) == 0, "int_dtype": draw(st.integers(0, 3)) == 0,
     }
 
